@@ -1,11 +1,18 @@
 package main
 
 import (
+	"bytes"
 	"math/rand"
+	"os"
 	"time"
 
 	"github.com/hujm2023/go-sms-protocol/cmpp"
 	"github.com/hujm2023/go-sms-protocol/datacoding"
+	gsm7 "github.com/hujm2023/go-sms-protocol/datacoding/gsm7encoding"
+	"github.com/hujm2023/go-sms-protocol/packet"
+	"github.com/hujm2023/go-sms-protocol/sgip/sgip12"
+	"github.com/hujm2023/go-sms-protocol/smgp"
+	"github.com/hujm2023/go-sms-protocol/smgp/smgp30"
 	"github.com/hujm2023/go-sms-protocol/sgip"
 	"github.com/hujm2023/go-sms-protocol/smpp"
 )
@@ -119,4 +126,84 @@ func runHelpers(c Case, tr *Tracer) {
 	ob, os := cmpp.RemoveSign(string(content))
 	tr.emit(Ev{"ev": "Sign", "l": int(lb), "r": int(rb), "sig": scalars(string(sig)), "body": scalars(string(body)), "prefix": prefix, "content": scalars(string(content)),
 		"outbody": scalars(ob), "outsig": scalars(os), "parsed": scalars(cmpp.ParseSignature(string(content))), "site": "cmpp.RemoveSign"})
+	// ---- exported odds and ends no other family calls
+	// header parsers over the same 12 / 16 / 20 octets: from a byte slice, from an io.Reader, by peeking; the header writer back
+	hb := make([]byte, 20)
+	rr.Read(hb)
+	k := []int{0, 3, 11, 12, 15, 16, 19, 20}[rr.Intn(8)]
+	{
+		h1, e1 := cmpp.NewHeaderFromBytes(hb[:k])
+		h2, e2 := cmpp.PeekHeader(hb[:k])
+		h3, e3 := cmpp.NewHeaderFromReader(bytes.NewReader(hb[:k]))
+		tr.emit(Ev{"ev": "Hdr", "proto": "cmpp", "in": B(hb[:k]), "errs": []bool{e1 != nil, e2 != nil, e3 != nil},
+			"f": [][]int{{int(h1.TotalLength >> 16), int(h1.TotalLength & 0xffff), int(uint32(h1.CommandID) >> 16), int(uint32(h1.CommandID) & 0xffff), int(h1.SequenceID >> 16), int(h1.SequenceID & 0xffff)},
+				{int(h2.TotalLength >> 16), int(h2.TotalLength & 0xffff), int(uint32(h2.CommandID) >> 16), int(uint32(h2.CommandID) & 0xffff), int(h2.SequenceID >> 16), int(h2.SequenceID & 0xffff)},
+				{int(h3.TotalLength >> 16), int(h3.TotalLength & 0xffff), int(uint32(h3.CommandID) >> 16), int(uint32(h3.CommandID) & 0xffff), int(h3.SequenceID >> 16), int(h3.SequenceID & 0xffff)}},
+			"back": B(h2.Bytes()), "site": "cmpp.header"})
+		g1, f1 := smgp.NewHeaderFromBytes(hb[:k])
+		g2, f2 := smgp.PeekHeader(hb[:k])
+		g3, f3 := smgp.NewHeaderFromReader(bytes.NewReader(hb[:k]))
+		tr.emit(Ev{"ev": "Hdr", "proto": "smgp", "in": B(hb[:k]), "errs": []bool{f1 != nil, f2 != nil, f3 != nil},
+			"f": [][]int{{int(g1.TotalLength >> 16), int(g1.TotalLength & 0xffff), int(uint32(g1.CommandID) >> 16), int(uint32(g1.CommandID) & 0xffff), int(g1.SequenceID >> 16), int(g1.SequenceID & 0xffff)},
+				{int(g2.TotalLength >> 16), int(g2.TotalLength & 0xffff), int(uint32(g2.CommandID) >> 16), int(uint32(g2.CommandID) & 0xffff), int(g2.SequenceID >> 16), int(g2.SequenceID & 0xffff)},
+				{int(g3.TotalLength >> 16), int(g3.TotalLength & 0xffff), int(uint32(g3.CommandID) >> 16), int(uint32(g3.CommandID) & 0xffff), int(g3.SequenceID >> 16), int(g3.SequenceID & 0xffff)}},
+			"back": B(g2.Bytes()), "site": "smgp.header"})
+	}
+	// ids rendered as decimal text
+	seq := rr.Uint32()
+	sh := sgip.NewHeader(0, sgip.SGIP_SUBMIT, rr.Uint32(), seq)
+	rep := &sgip12.Report{SubmitSequence: [3]uint32{rr.Uint32(), rr.Uint32(), seq}}
+	tr.emit(Ev{"ev": "DecId", "hi": int(seq >> 16), "lo": int(seq & 0xffff), "strs": []interface{}{S(sh.GetMsgId()), S(rep.GetSubmitIdStr())},
+		"nums": [][]int{{int(sh.GetSequenceID() >> 16), int(sh.GetSequenceID() & 0xffff)}, {int(rep.GetSubmitId() >> 16), int(rep.GetSubmitId() & 0xffff)}}, "site": "sgip.ids"})
+	// the hexadecimal views of a writer and of a reader
+	hv := randBytes(rr, rr.Intn(24))
+	hw := packet.NewPacketWriter()
+	hw.WriteBytes(hv)
+	hr := packet.NewPacketReader(hv)
+	hr.ReadNBytes(len(hv) / 3)
+	tr.emit(Ev{"ev": "Hex", "in": B(hv), "skip": len(hv) / 3, "w": S(hw.HexString()), "r": S(hr.HexString()), "site": "packet.HexString"})
+	hw.Release()
+	hr.Release()
+	// the CMPP command names as JSON, there and back
+	cid := []cmpp.CommandID{cmpp.CommandConnect, cmpp.CommandConnectResp, cmpp.CommandTerminate, cmpp.CommandTerminateResp, cmpp.CommandSubmit, cmpp.CommandSubmitResp,
+		cmpp.CommandDeliver, cmpp.CommandDeliverResp, cmpp.CommandActiveTest, cmpp.CommandActiveTestResp, cmpp.CommandQuery, cmpp.CommandCancel, cmpp.CommandID(rr.Uint32())}[rr.Intn(13)]
+	js, _ := cid.MarshalJSON()
+	var back cmpp.CommandID
+	uerr := quietly(func() error { return back.UnmarshalJSON(js) })
+	tr.emit(Ev{"ev": "CmdJson", "hi": int(uint32(cid) >> 16), "lo": int(uint32(cid) & 0xffff), "js": S(string(js)), "name": S(cid.String()), "uerr": uerr != nil,
+		"bhi": int(uint32(back) >> 16), "blo": int(uint32(back) & 0xffff), "site": "cmpp.CommandID.JSON"})
+	// SMGP requests build the header of their response
+	rs := rr.Uint32()
+	dl := &smgp30.Deliver{}
+	dl.SetSequenceID(rs)
+	at := &smgp30.ActiveTest{}
+	at.SetSequenceID(rs)
+	ex := &smgp30.Exit{}
+	ex.SetSequenceID(rs)
+	tr.emit(Ev{"ev": "RespHdr", "hi": int(rs >> 16), "lo": int(rs & 0xffff),
+		"seqs": [][]int{{int(dl.GenerateResponseHeader().Header.SequenceID >> 16), int(dl.GenerateResponseHeader().Header.SequenceID & 0xffff)},
+			{int(at.GenerateResponseHeader().Header.SequenceID >> 16), int(at.GenerateResponseHeader().Header.SequenceID & 0xffff)},
+			{int(ex.GenerateResponseHeader().Header.SequenceID >> 16), int(ex.GenerateResponseHeader().Header.SequenceID & 0xffff)}},
+		"cmds": []int{int(uint32(dl.GenerateResponseHeader().Header.CommandID) & 0xffff), int(uint32(at.GenerateResponseHeader().Header.CommandID) & 0xffff), int(uint32(ex.GenerateResponseHeader().Header.CommandID) & 0xffff)},
+		"resp": []bool{uint32(dl.GenerateResponseHeader().Header.CommandID)>>31 == 1, uint32(at.GenerateResponseHeader().Header.CommandID)>>31 == 1, uint32(ex.GenerateResponseHeader().Header.CommandID)>>31 == 1},
+		"site": "smgp30.GenerateResponseHeader"})
+	// single optional parameters
+	tv := randBytes(rr, rr.Intn(6))
+	tg := []int{0, 0, 5, 0x1401}[rr.Intn(4)]
+	t1, t2 := smpp.NewTLV(uint16(tg), tv), smpp.NewTLVByString(uint16(tg), string(tv))
+	tr.emit(Ev{"ev": "OneTlv", "tag": tg, "v": B(tv), "bytes": []interface{}{B(t1.Bytes()), B(t2.Bytes())}, "empty": []bool{t1.IsEmpty(), t2.IsEmpty(), smpp.TLV{}.IsEmpty()},
+		"strempty": []bool{t1.String() == "", smpp.TLV{}.String() == ""}, "site": "smpp.TLV"})
+	// "can GSM 7-bit carry it" is the validator's answer
+	gt := string(word(rr.Intn(8))) + []string{"", "€", "[", "ç", "`", "\x1b"}[rr.Intn(6)]
+	tr.emit(Ev{"ev": "CanGsm", "text": scalars(gt), "can": datacoding.CanEncodeByGSM7(gt), "valid": gsm7.IsValidGSM7String(gt), "inv": scalars(string(gsm7.ValidateGSM7String(gt))), "site": "datacoding.CanEncodeByGSM7"})
+}
+
+// quietly runs f with the process's standard output pointed at the null device (UnmarshalJSON prints its argument)
+func quietly(f func() error) error {
+	old := os.Stdout
+	if null, err := os.OpenFile(os.DevNull, os.O_WRONLY, 0); err == nil {
+		os.Stdout = null
+		defer func() { os.Stdout = old; null.Close() }()
+	}
+	return f()
 }
